@@ -2,6 +2,7 @@ package resolvers
 
 import (
 	"context"
+	"sort"
 
 	"github.com/MichaelMure/git-bug/api/auth"
 	"github.com/MichaelMure/git-bug/api/graphql/connections"
@@ -104,6 +105,12 @@ func (repoResolver) AllIdentities(_ context.Context, obj *models.Repository, aft
 
 	// Simply pass a []string with the ids to the pagination algorithm
 	source := obj.Repo.Identities().AllIds()
+
+	// AllIds comes from a map, in a different order at each call: cursors are offsets in this
+	// list, so it needs a stable order or paging through it repeats and skips identities.
+	sort.Slice(source, func(i, j int) bool {
+		return source[i] < source[j]
+	})
 
 	// The edger create a custom edge holding just the id
 	edger := func(id entity.Id, offset int) connections.Edge {
